@@ -65,8 +65,10 @@ func validateMemoryAnnotation(hasGpuMemoryAnnotation bool, gpuMemoryFromAnnotati
 	if !hasGpuMemoryAnnotation {
 		return nil
 	}
-	gpuMemory, err := strconv.ParseUint(gpuMemoryFromAnnotation, 10, 64)
-	if err != nil || gpuMemory == 0 {
+	// parsed exactly as the scheduler parses it (int64): a value that only fits an unsigned 64 bit integer would be
+	// accepted here but ignored by the scheduler
+	gpuMemory, err := strconv.ParseInt(gpuMemoryFromAnnotation, 10, 64)
+	if err != nil || gpuMemory <= 0 {
 		return fmt.Errorf("gpu-memory annotation value must be a positive integer greater than 0")
 	}
 	return nil
@@ -89,8 +91,10 @@ func validateMultiFractionRequest(hasGpuFractionsCount bool, gpuFractionsCountFr
 	if !hasGpuFractionsCount {
 		return nil
 	}
-	fractionsCount, err := strconv.ParseUint(gpuFractionsCountFromAnnotation, 10, 64)
-	if err != nil || fractionsCount == 0 {
+	// the scheduler parses the count as a signed integer and multiplies it by the portion in fixed-point arithmetic:
+	// keep it in a range (int32) that it reads identically and that cannot overflow
+	fractionsCount, err := strconv.ParseInt(gpuFractionsCountFromAnnotation, 10, 32)
+	if err != nil || fractionsCount <= 0 {
 		return fmt.Errorf("fraction count annotation value must be a positive integer greater than 0")
 	}
 	return nil
